@@ -163,7 +163,7 @@ def main(argv=None):
     timeouts = []
     deadline = getattr(mod, 'UNIT_DEADLINE', {'quick': 300.0, 'thorough': 1800.0})[tier]
     pool = core.Pool(modname, tier, unit_deadline=deadline)
-    errors = pool.run(units_run, on_result, on_timeout=timeouts.append)
+    errors = pool.run(units_run, on_result, on_timeout=timeouts.append, max_timeouts=getattr(mod, 'MAX_TIMEOUTS', 6))
     for idx in timeouts:
         if hasattr(mod, 'on_unit_timeout'):
             viols.extend(mod.on_unit_timeout(units_run[idx]))
@@ -245,6 +245,9 @@ def main(argv=None):
         states = len(outcomes)
     transitions = tot['transitions'] + int(space.get('transitions', 0))
     caps = list(space.get('caps_hit', []))
+    if getattr(pool, 'aborted', False):
+        caps.append(f"exploration cut short after {len(timeouts)} work units had to be killed at the deadline twice; "
+                    f"{len(units) - len(unit_obs) - len(timeouts)} units were not explored")
     if len(outcomes) >= 2_000_000:
         caps.append('distinct_outcomes counter saturated at 2,000,000')
     rs = random.Random(seed)
